@@ -434,3 +434,90 @@ Theorem C04_example_alg_check :
   /\ vit_alg_check (ex_gw, ex_ws, [], (1000, tol6), (1, ex_t)) = 1.
 Proof. exact ex_alg_check. Qed.
 Print Assumptions C04_example_alg_check.
+
+(** * 8. histories of calls on the same FGG object (Model/ViterbiHist.v) *)
+(** [hist_cases] is the model of "the FGG as it is at the time of the call": the state of call j
+    is the initial grammar with the rules added by steps 0..j, and the initial weights with the
+    in-place updates of steps 0..j applied in order; earlier observations play no role *)
+Require Import Fggs.Model.ViterbiHist Fggs.Proofs.ViterbiHist_proofs.
+
+Theorem C04_hist_state :
+  forall gw ws K steps j ups rs xi ob,
+    nth_error steps j = Some (ups, rs, xi, ob) ->
+    nth_error (hist_cases gw ws K steps) j
+    = Some (gw_add gw (flat_map step_rules (firstn (S j) steps)),
+            fold_left ws_set (flat_map step_ups (firstn (S j) steps)) ws, xi, K, ob).
+Proof. exact hist_cases_nth. Qed.
+Print Assumptions C04_hist_state.
+
+(** the in-place update writes exactly one entry of the weight state *)
+Theorem C04_hist_update_same :
+  forall ws el i v, ws_get ws el i <> None -> ws_get (ws_set ws (el, i, v)) el i = Some v.
+Proof. exact ws_set_get_same. Qed.
+Print Assumptions C04_hist_update_same.
+
+Theorem C04_hist_update_other :
+  forall ws el i v el' i', (el', i') <> (el, i) -> ws_get (ws_set ws (el, i, v)) el' i' = ws_get ws el' i'.
+Proof. exact ws_set_get_other. Qed.
+Print Assumptions C04_hist_update_other.
+
+(** verdict 0 of the history check: every call is accepted by [vit_check] in ITS state or is
+    outside the property there, and at least one call was judged *)
+Theorem C04_hist_check_sound :
+  forall gw ws K steps,
+    vit_hist_check (gw, ws, K, steps) = 0 ->
+    (forall c, In c (hist_cases gw ws K steps) -> vit_check c = 0 \/ vit_check c = 30 \/ vit_check c = 31)
+    /\ exists c, In c (hist_cases gw ws K steps) /\ vit_check c = 0.
+Proof. exact hist_check_sound. Qed.
+Print Assumptions C04_hist_check_sound.
+
+(** ... hence every call returned a well-formed derivation that is optimal for the rules and
+    weights the object had at that call *)
+Theorem C04_hist_check_optimal :
+  forall gw ws K steps,
+    vit_hist_check (gw, ws, K, steps) = 0 ->
+    forall j ups rs xi kind t dw spv,
+      nth_error steps j = Some (ups, rs, xi, (kind, t, dw, spv)) ->
+      let gwj := gw_add gw (flat_map step_rules (firstn (S j) steps)) in
+      let wsj := fold_left ws_set (flat_map step_ups (firstn (S j) steps)) ws in
+      let G := grammar_of_w gwj in
+      let w := env_of trop_ops (weights_tmt trop_of G wsj) in
+      vit_check (gwj, wsj, xi, K, (kind, t, dw, spv)) = 30
+      \/ vit_check (gwj, wsj, xi, K, (kind, t, dw, spv)) = 31
+      \/ (kind = 0 /\ wf_grammar G = true /\ wf_dtree G (g_start G) xi t
+          /\ (exists q, weight trop_ops G w t = TFin q)
+          /\ (forall t', wf_dtree G (g_start G) xi t' -> tle (weight trop_ops G w t') (weight trop_ops G w t))
+          /\ trop_of dw = weight trop_ops G w t).
+Proof. exact hist_check_optimal. Qed.
+Print Assumptions C04_hist_check_optimal.
+
+(** a rejecting verdict 100*j + c names the first rejected call and [vit_check]'s verdict on it *)
+Theorem C04_hist_check_rejects :
+  forall gw ws K steps v,
+    vit_hist_check (gw, ws, K, steps) = v -> v <> 0 -> v <> 31 ->
+    exists j c, nth_error (hist_cases gw ws K steps) j = Some c
+                /\ v = 100 * (S j) + vit_check c
+                /\ vit_check c <> 0 /\ vit_check c <> 30 /\ vit_check c <> 31.
+Proof. exact hist_check_rejects. Qed.
+Print Assumptions C04_hist_check_rejects.
+
+(** examples: a derivation computed from an earlier state of the object is rejected as call 2
+    with verdict 6 (206), the currently optimal one is accepted; a rule added between two calls *)
+Theorem C04_example_hist :
+  vit_hist_check (ex_gw, ex_ws, 2, [ex_step1; ex_step2_fresh]) = 0
+  /\ vit_hist_check (ex_gw, ex_ws, 2, [ex_step1; ex_step2_stale]) = 206
+  /\ ws_get (fold_left ws_set [ex_upd] ex_ws) 2 1 = Some ex_m3
+  /\ ws_get (fold_left ws_set [ex_upd] ex_ws) 2 0 = Some ex_m2.
+Proof. exact ex_hist. Qed.
+Print Assumptions C04_example_hist.
+
+Theorem C04_example_hist_rules :
+  gw_add ex_gw_part [ex_rule3] = ex_gw
+  /\ vit_hist_check (ex_gw_part, ex_ws, 2,
+                     [([], [], [], (1, ex_t, ex_m1, ((0, 0 # 1), (0, 0 # 1))));
+                      ([], [ex_rule3], [], (0, ex_t, ex_m1, (ex_m1, ex_m1)))]) = 0
+  /\ vit_hist_check (ex_gw_part, ex_ws, 2,
+                     [([], [], [], (1, ex_t, ex_m1, ((0, 0 # 1), (0, 0 # 1))));
+                      ([], [ex_rule3], [], (1, ex_t, ex_m1, (ex_m1, ex_m1)))]) = 201.
+Proof. exact ex_hist_rules. Qed.
+Print Assumptions C04_example_hist_rules.
